@@ -2,8 +2,10 @@ import JSight.Basic
 /-!
 Model of `core/description.go description` (after F19 and F27: a whitespace-only line does not limit
 the common indentation) and `catalog/annotation.go Annotation`.
-Byte level.  `bytes.TrimSpace` and regexp `\s` are modelled on ASCII + the multi-byte Unicode spaces
-are *not* modelled (inputs with bytes ≥ 0x80 are compared by correspondence only; see DESIGN §4).
+Byte level.  `bytes.TrimSpace` / `strings.TrimSpace` are modelled exactly for every byte string
+(`trimSpaceU`: the ASCII spaces and the UTF-8 encodings of the Unicode spaces of `unicode.IsSpace`;
+an invalid or truncated sequence is U+FFFD for Go, not a space, so trimming stops there).
+The regexp `\s` of `Annotation` is ASCII only in Go (`[\t\n\f\r ]`), and so it is here.
 -/
 namespace JSight
 
@@ -25,12 +27,49 @@ def trimLeft (p : UInt8 → Bool) (b : Bytes) : Bytes := b.dropWhile p
 def trimRight (p : UInt8 → Bool) (b : Bytes) : Bytes := (b.reverse.dropWhile p).reverse
 def trimBoth (p : UInt8 → Bool) (b : Bytes) : Bytes := trimRight p (trimLeft p b)
 
+/-- The byte sequences that `bytes.TrimSpace` / `strings.TrimSpace` remove: the six ASCII spaces and the
+UTF-8 encodings of the other runes of `unicode.IsSpace`: U+0085, U+00A0, U+1680, U+2000 … U+200A,
+U+2028, U+2029, U+202F, U+205F, U+3000. -/
+def spaceSeqs : List Bytes :=
+  [[9], [10], [11], [12], [13], [32],
+   [0xC2, 0x85], [0xC2, 0xA0], [0xE1, 0x9A, 0x80],
+   [0xE2, 0x80, 0x80], [0xE2, 0x80, 0x81], [0xE2, 0x80, 0x82], [0xE2, 0x80, 0x83], [0xE2, 0x80, 0x84],
+   [0xE2, 0x80, 0x85], [0xE2, 0x80, 0x86], [0xE2, 0x80, 0x87], [0xE2, 0x80, 0x88], [0xE2, 0x80, 0x89],
+   [0xE2, 0x80, 0x8A], [0xE2, 0x80, 0xA8], [0xE2, 0x80, 0xA9], [0xE2, 0x80, 0xAF], [0xE2, 0x81, 0x9F],
+   [0xE3, 0x80, 0x80]]
+
+/-- the same sequences read from the end of a string -/
+def spaceSeqsRev : List Bytes := spaceSeqs.map List.reverse
+
+/-- As long as the string starts with one of the sequences of `P`, drop that sequence.
+(`go` has the length of the string as fuel: every sequence is non-empty.) -/
+def trimLeftSeqs (P : List Bytes) (b : Bytes) : Bytes :=
+  go b b.length
+where
+  go (b : Bytes) : Nat → Bytes
+    | 0 => b
+    | fuel + 1 =>
+      match P.find? (·.isPrefixOf b) with
+      | some p => go (b.drop p.length) fuel
+      | none => b
+
+/-- `TrimLeftFunc(b, unicode.IsSpace)`: `DecodeRune` yields a space rune exactly when the string starts with
+its (shortest-form) encoding; anything else — also an invalid byte, decoded as U+FFFD — stops the trimming. -/
+def trimLeftU (b : Bytes) : Bytes := trimLeftSeqs spaceSeqs b
+
+/-- `TrimRightFunc(b, unicode.IsSpace)`: `DecodeLastRune` yields a space rune exactly when the string ends
+with its encoding. -/
+def trimRightU (b : Bytes) : Bytes := (trimLeftSeqs spaceSeqsRev b.reverse).reverse
+
+/-- `bytes.TrimSpace` / `strings.TrimSpace`, for every byte string (valid UTF-8 or not): left, then right -/
+def trimSpaceU (b : Bytes) : Bytes := trimRightU (trimLeftU b)
+
 inductive DescrErr | parens
   deriving DecidableEq, Repr
 
 /-- `descriptionRemoveParentheses` -/
 def removeParens (b : Bytes) : Except DescrErr Bytes :=
-  let bb := trimBoth isAsciiSpace b
+  let bb := trimSpaceU b
   if 2 ≤ bb.length ∧ bb.head? = some B.lpar ∧ bb.getLast? = some B.rpar then
     let inner := trimBoth isBlankHT (bb.drop 1).dropLast
     match inner.head?, inner.getLast? with
@@ -104,7 +143,7 @@ def description (b : Bytes) : Except DescrErr Bytes :=
     .ok (joinLines (lines.map (trimPrefix pre)))
 
 /-- `Annotation`: `strings.TrimSpace` then collapse every run of `\s` (= [\t\n\f\r ]) to one space.
-ASCII model: TrimSpace also trims \v (0x0b), the regexp `\s` does not match it. -/
+TrimSpace also trims \v (0x0b) and the multi-byte Unicode spaces, the regexp `\s` does not match them. -/
 def isReSpace (c : UInt8) : Bool := c == 9 || c == 10 || c == 12 || c == 13 || c == 32
 
 def collapseWsAux (inSpace : Bool) : Bytes → Bytes
@@ -115,6 +154,6 @@ def collapseWsAux (inSpace : Bool) : Bytes → Bytes
 
 def collapseWs (b : Bytes) : Bytes := collapseWsAux false b
 
-def annotation (s : Bytes) : Bytes := collapseWs (trimBoth isAsciiSpace s)
+def annotation (s : Bytes) : Bytes := collapseWs (trimSpaceU s)
 
 end JSight
